@@ -3,7 +3,7 @@
 //@ assume: termination of the read loop is not proved (it blocks on the socket): exec_allows_no_decreases_clause
 //@ assume: decided here: Codec::read_inner (the frame state machine) (a) never underflows or indexes out of range in its length arithmetic, (b) leaves the Headers batching state only consistently: a Headers batch is returned with remaining == 0 only when the frame's announced bytes are exactly used up, a frame whose item count is exhausted while bytes remain (or whose bytes are exhausted while items remain, or whose count is 0 although body bytes follow) is refused with BadMessage and the state reset, while the EMPTY message (count 0, no body) is delivered as an empty list; a returned batch holds at most 32 headers; after a non-final batch the state still expects exactly `remaining` items; (c) an unknown message type is skipped by exactly its announced length and the state reset
 //@ assume: 64-bit target
-//@ assumed_items: 30
+//@ assumed_items: 35
 //@ fns: Codec::read_inner, Codec::next_len
 use std::sync::Arc;
 use std::mem;
@@ -50,7 +50,19 @@ pub struct HeadersData { pub headers: Vec<BlockHeader>, pub remaining: u64 }
 pub enum Message { Unknown(u8), Headers(HeadersData), Attachment(AttachmentUpdate, Option<Bytes>), Other }
 #[verifier::external_body]
 pub struct Bytes { _p: u8 }
-impl Bytes { pub uninterp spec fn blen(&self) -> nat; }
+impl Bytes { pub uninterp spec fn blen(&self) -> nat;
+    /// bytes::Buf getters PANIC when fewer bytes remain than they read (bytes-0.5 buf_impl.rs: `assert!(self.remaining() >= N)`): preconditions
+    #[verifier::external_body]
+    pub fn get_u8(&mut self) -> (r: u8) requires old(self).blen() >= 1 ensures final(self).blen() == old(self).blen() - 1 { unimplemented!() }
+    #[verifier::external_body]
+    pub fn get_u16(&mut self) -> (r: u16) requires old(self).blen() >= 2 ensures final(self).blen() == old(self).blen() - 2 { unimplemented!() }
+    #[verifier::external_body]
+    pub fn get_u32(&mut self) -> (r: u32) requires old(self).blen() >= 4 ensures final(self).blen() == old(self).blen() - 4 { unimplemented!() }
+    #[verifier::external_body]
+    pub fn get_u64(&mut self) -> (r: u64) requires old(self).blen() >= 8 ensures final(self).blen() == old(self).blen() - 8 { unimplemented!() }
+    #[verifier::external_body]
+    pub fn len(&self) -> (r: usize) ensures r == self.blen() { unimplemented!() }
+}
 #[verifier::external_body]
 pub struct BytesMut { _p: u8 }
 impl BytesMut {
